@@ -157,6 +157,55 @@ def same_second_rewrites(ctx, res):
         pyg.fresh_process_state()
 
 
+def real_socket_transfers(ctx, res):
+    """Documents of sizes around the block sizes, fetched from a real server process over real sockets, plain and TLS (what a
+    descriptor-level shortcut -- sendfile, a child writing to the socket -- would bypass): the bytes are the file's."""
+    import realsrv
+    tree = pyg.Tree()
+    try:
+        sizes = [0, 100, 4096, 65535, 65536, 70001, 300000]
+        files = {}
+        for n in sizes:
+            data = (b"%07d|" % n) + bytes((i * 7 + n) % 251 for i in range(max(0, n - 8)))
+            data = data[:n]
+            files["f%d.bin" % n] = data
+            tree.write("f%d.bin" % n, data)
+        cfg = pyg.make_config(tree.root, **dict({"handlers.dir.DirHandler|cachetime": "0", "pygopherd|servertype": "ThreadingTCPServer"}, **realsrv.tls_options()))
+        try:
+            srv = realsrv.RealServer(cfg, tree.tmp, "c04")
+        except Exception as e:  # noqa
+            res.degraded.append("real server for C04 did not start: " + str(e)[:120])
+            return
+        with srv:
+            for name, data in files.items():
+                for p_ in ("gopher", "gopherp", "http", "spartan", "sgopher", "https", "gemini"):
+                    tls = reqs.TLS.get(p_, False)
+                    rq = reqs.build(p_, "/" + name, gplus="+")
+                    out = realsrv.ask(srv.port, rq, tls=tls, timeout=20)
+                    res.evaluations += 1
+                    res.nontrivial.add(("real-socket", name, p_))
+                    if p_ in ("gopher", "sgopher"):
+                        body = out
+                    elif p_ == "gopherp":
+                        k = out.find(b"\r\n")
+                        body = out[k + 2:] if out.startswith(b"+") and k > 0 else None
+                        if body is not None and out[:k] not in (b"+-2", b"+%d" % len(data)):
+                            body = None
+                    elif p_ in ("http", "https"):
+                        k = out.find(b"\r\n\r\n")
+                        body = out[k + 4:] if out.startswith(b"HTTP/1.0 200") and k > 0 else None
+                    else:
+                        k = out.find(b"\r\n")
+                        body = out[k + 2:] if out[:1] == b"2" and k > 0 else None
+                    if body != data:
+                        res.violation("C04:real-socket-body:" + p_, "a document fetched over a real socket is not the file's bytes", 
+                                      {"document": name, "size": len(data), "protocol": p_, "tls": tls},
+                                      observed=(out[:60], len(out)), required="framing + %d bytes of the file" % len(data),
+                                      replay={"type_history": True, "real_socket": name, "protocol": p_})
+    finally:
+        tree.close()
+
+
 def encoding_option(ctx, res):
     """The `encoding` option as an administrator may write it -- a list that leaves out suffixes Python knows by itself
     (.gz, .xz, .Z, .br): it replaces the table, so those suffixes are content types again, in every protocol."""
@@ -543,6 +592,7 @@ def run(ctx):
     overlapping_transfers(ctx, res)
     type_histories(ctx, res)
     same_second_rewrites(ctx, res)
+    real_socket_transfers(ctx, res)
     encoding_option(ctx, res)
     res.degraded = list(pyg.degraded) + [d for d in res.degraded if d not in pyg.degraded]
     return res
